@@ -28,6 +28,7 @@ type ProgOpts struct {
 	OrEarlyEnd bool // allow inclusive branches that end in their own end event
 	StuckXor bool // allow exclusive gateways with no default and possibly no true condition
 	ActivityDefault bool // allow default flows on activities (known-finding trigger)
+	DataConds bool // conditions may read boolean results written by tasks that certainly ran before (also by other tokens: sub-process content, joined parallel branches)
 	SubInLoop bool // allow sub-processes inside loops (known-finding trigger)
 	ForkInOr bool // allow forking blocks inside inclusive branches (known-finding trigger)
 	OrInAnd bool // allow inclusive joins inside parallel branches (known-finding trigger)
@@ -49,16 +50,33 @@ type progGen struct {
 	inAnd int
 	nwrap int
 	wrapped int
+	written map[string]bool
+	dataConds int
+	avail []string // boolean result variables that are certainly written before the current point (and not by a concurrent branch)
 }
 
 func (pg *progGen) newTask(g *Graph) *Node {
 	pg.tasks++
 	id := pg.defs.fresh("T")
 	n := &Node{ID: id, Kind: "task", TaskKind: taskTags[pg.d.N(len(taskTags))], Results: []string{"r_" + id}}
+	if pg.opts.DataConds && pg.d.Bool() {
+		v := "ok_" + id
+		n.Results = append(n.Results, v)
+		n.Writes = map[string]any{v: pg.d.Bool()}
+		pg.avail = append(pg.avail, v)
+		pg.written[v] = n.Writes[v].(bool)
+	}
 	return g.addNode(n)
 }
 
 func (pg *progGen) cond() *Cond {
+	if pg.opts.DataConds && len(pg.avail) > 0 && pg.d.N(3) != 0 {
+		// read what an upstream task wrote
+		v := pg.avail[pg.d.N(len(pg.avail))]
+		c := &Cond{Var: v, Want: pg.d.Bool()}
+		pg.dataConds++
+		return c
+	}
 	v := pg.defs.fresh("c")
 	val := pg.d.Bool()
 	pg.vars[v] = val
@@ -75,6 +93,9 @@ func (pg *progGen) cond() *Cond {
 func (pg *progGen) condHolds(c *Cond) bool {
 	if c.Const != nil {
 		return *c.Const
+	}
+	if w, ok := pg.written[c.Var]; ok {
+		return w == c.Want
 	}
 	return pg.vars[c.Var] == c.Want
 }
@@ -212,6 +233,7 @@ func (pg *progGen) blockInner(g *Graph, from string, cond *Cond, outPos int, dep
 				pg.desc.WriteString("default: ")
 			}
 			var last, ff string
+			base := len(pg.avail)
 			if pg.d.N(3) == 2 {
 				// empty branch: flow straight to the merge
 				fl := g.connect(d, x.ID, m.ID, c, -1)
@@ -221,6 +243,7 @@ func (pg *progGen) blockInner(g *Graph, from string, cond *Cond, outPos int, dep
 				last, ff = pg.block(g, x.ID, c, -1, depth+1)
 				g.connect(d, last, m.ID, nil, -1)
 			}
+			pg.avail = pg.avail[:base] // what one branch writes is not certain after the merge
 			if isDef {
 				x.Default = ff
 			}
@@ -234,13 +257,18 @@ func (pg *progGen) blockInner(g *Graph, from string, cond *Cond, outPos int, dep
 		j := g.addNode(&Node{ID: d.fresh("AJ"), Kind: "and"})
 		nb := 2 + pg.d.N(2)
 		pg.desc.WriteString("and[ ")
+		baseAvail := append([]string{}, pg.avail...)
+		var added []string
 		for i := 0; i < nb; i++ {
 			pg.inAnd++
+			pg.avail = append([]string{}, baseAvail...) // a sibling branch's writes are concurrent, not upstream
 			last, _ := pg.block(g, a.ID, nil, -1, depth+1)
+			added = append(added, pg.avail[len(baseAvail):]...)
 			pg.inAnd--
 			g.connect(d, last, j.ID, nil, -1)
 			pg.desc.WriteString("| ")
 		}
+		pg.avail = append(baseAvail, added...) // after the join every branch has certainly run
 		pg.desc.WriteString("] ")
 		return j.ID, f.ID
 	case "or":
@@ -269,7 +297,9 @@ func (pg *progGen) blockInner(g *Graph, from string, cond *Cond, outPos int, dep
 				pg.desc.WriteString("default: ")
 			}
 			pg.inOr++
+			baseOr := len(pg.avail)
 			last, ff := pg.block(g, o.ID, c, -1, depth+1)
+			pg.avail = pg.avail[:baseOr]
 			pg.inOr--
 			if isDef {
 				o.Default = ff
@@ -309,6 +339,9 @@ func (pg *progGen) blockInner(g *Graph, from string, cond *Cond, outPos int, dep
 		fmt.Fprintf(&pg.desc, "%s ) ", tc.ID)
 		return lx.ID, f.ID
 	case "condtask":
+		saveDC := pg.opts.DataConds
+		pg.opts.DataConds = false // the conditions of this block are adjusted after drawing: keep them on initial data
+		defer func() { pg.opts.DataConds = saveDC }()
 		t := pg.newTask(g)
 		f := g.connect(d, from, t.ID, cond, outPos)
 		j := g.addNode(&Node{ID: d.fresh("CJ"), Kind: "or"})
@@ -378,6 +411,7 @@ type Program struct {
 	Tags []string       `json:"tags,omitempty"`
 	Objs map[string]any `json:"objs,omitempty"`
 	Wrapped int         `json:"wrapped,omitempty"`
+	DataConds int       `json:"dataConds,omitempty"`
 }
 
 // GenProgram draws a block-structured process.
@@ -385,7 +419,7 @@ func GenProgram(d *Draw, opts ProgOpts) *Program {
 	defs := &Definitions{}
 	g := &Graph{ID: "P1", Executable: true}
 	defs.Procs = []*Graph{g}
-	pg := &progGen{d: d, defs: defs, opts: opts, vars: map[string]any{}, tags: map[string]bool{}}
+	pg := &progGen{d: d, defs: defs, opts: opts, vars: map[string]any{}, tags: map[string]bool{}, written: map[string]bool{}}
 	st := g.addNode(&Node{ID: "Start", Kind: "start"})
 	n := 1 + d.N(2)
 	cur := st.ID
@@ -400,13 +434,13 @@ func GenProgram(d *Draw, opts ProgOpts) *Program {
 		tags = append(tags, t)
 	}
 	sort.Strings(tags)
-	return &Program{Defs: defs, Vars: pg.vars, Desc: strings.TrimSpace(pg.desc.String()), Tags: tags, Wrapped: pg.wrapped}
+	return &Program{Defs: defs, Vars: pg.vars, Desc: strings.TrimSpace(pg.desc.String()), Tags: tags, Wrapped: pg.wrapped, DataConds: pg.dataConds}
 }
 
 // GenBody draws a block-structured body into graph g (which shares defs, so ids are unique across the
 // processes of one definitions element): start -> blocks -> end. It returns the initial variables.
 func GenBody(d *Draw, defs *Definitions, g *Graph, opts ProgOpts, prefix string) (map[string]any, string) {
-	pg := &progGen{d: d, defs: defs, opts: opts, vars: map[string]any{}, tags: map[string]bool{}}
+	pg := &progGen{d: d, defs: defs, opts: opts, vars: map[string]any{}, tags: map[string]bool{}, written: map[string]bool{}}
 	st := g.addNode(&Node{ID: prefix + "_Start", Kind: "start"})
 	n := 1 + d.N(2)
 	cur := st.ID
